@@ -112,6 +112,7 @@ contract(
     locals={"insertComments": MARKERS},
     ghost_vars={"w": (Dict(STR, INT), "{}")},
     ghost={"insertComments[block.name] = (block, comment)": ["w = {**w, block.name: i}"]},
+    merge_branches=False,
     loops={
         "for match in ast.findCommentPattern(feaFile, insertFeatureMarker)": Loop(
             index="i",
@@ -139,6 +140,7 @@ contract(
     globals=_GLOBALS,
     ensures={"located": _LOCATED.format(r="result")},
     canaries={"empty": "all(t not in result for t in featureTags)"},
+    merge_branches=False,
     locals={"insertComments": MARKERS},
     loops={"for match in ast.findCommentPattern(feaFile, insertFeatureMarker)": Loop(index="i", seq="MS", invariants={"located": _LOCATED.format(r="insertComments")})},
 )
@@ -270,6 +272,7 @@ contract(
         " and all(t in feaFile.featureTags for t in result.existingFeatures))",
     },
     canaries={"never-generates-existing": "all(t not in feaFile.featureTags for t in result.todo)"},
+    merge_branches=False,
 )
 
 
